@@ -1103,6 +1103,10 @@ pub fn invalid_reason(world: &World) -> Option<String> {
                         if r.lines[l - 1].contains('~') {
                             return Some("tag re-write whose new line contains a tilde".into());
                         }
+                        if !r.lines[l - 1].is_ascii() {
+                            // character indices of the change vs byte columns of the tag
+                            return Some("tag re-write on a line with non-ASCII text".into());
+                        }
                         if old.contains(DROPPED_ATTR) && with_dropped_attr(&r.lines[l - 1]).as_deref() != Some(old.as_str()) {
                             return Some("dropped-attribute edit whose old text is not the new line plus the attribute".into());
                         }
